@@ -70,6 +70,26 @@ func init() {
 		}
 		return m.tt.Bool(strings.Contains(x.S, y.S))
 	}
+	I["internal/bytealg.MakeNoZero"] = func(m *Machine, fn *ssa.Function, a []Value) Value {
+		n := m.concInt(a[0], "MakeNoZero")
+		if n < 0 || n > 1<<16 {
+			m.goPanic("engine: MakeNoZero size out of range")
+		}
+		return m.mkBytes(make([]byte, n))
+	}
+	I["bytes.Repeat"] = func(m *Machine, fn *ssa.Function, a []Value) Value {
+		b := a[0].(SliceVal)
+		n := m.concInt(a[1], "bytes.Repeat count")
+		if n < 0 || int(n)*b.Len > 1<<16 {
+			m.goPanic("bytes: Repeat count out of range")
+		}
+		ts := m.sliceTerms(b)
+		var out []*Term
+		for i := 0; i < int(n); i++ {
+			out = append(out, ts...)
+		}
+		return m.mkByteTerms(out)
+	}
 	// ---- errors / fmt ----
 	I["fmt.Errorf"] = func(m *Machine, fn *ssa.Function, a []Value) Value {
 		m.path.opaqueID++
@@ -760,6 +780,23 @@ func lookupIntrinsic(m *Machine, fn *ssa.Function, name string) intrinsicFn {
 			if sf := hp.Func(target); sf != nil {
 				return func(m *Machine, fn *ssa.Function, a []Value) Value { return m.callFn(sf, a, nil) }
 			}
+		}
+	}
+	// convention stubs: a function zzstub_<Type>_<Method> / zzstub_<Func> in the SAME package as the
+	// callee (added through the overlay, e.g. harness/pkg/db/zz_verif_model_db.go) replaces it symbolically
+	if fn.Pkg != nil && strings.HasPrefix(fn.Pkg.Pkg.Path(), modulePath) {
+		sname := "zzstub_" + fn.Name()
+		if recv := fn.Signature.Recv(); recv != nil {
+			rt := recv.Type()
+			if pt, ok := rt.(*types.Pointer); ok {
+				rt = pt.Elem()
+			}
+			if nt, ok := rt.(*types.Named); ok {
+				sname = "zzstub_" + nt.Obj().Name() + "_" + fn.Name()
+			}
+		}
+		if sf := fn.Pkg.Func(sname); sf != nil && sf != fn {
+			return func(m *Machine, fn *ssa.Function, a []Value) Value { return m.callFn(sf, a, nil) }
 		}
 	}
 	if f, ok := intrinsics[name]; ok {
